@@ -558,13 +558,41 @@ func (c *Ctx) evalCallWithArgs(x *ast.CallExpr, s *State, pre []Value) Value {
 	}
 	c.atClauses(s, fmt.Sprintf("call %s#%d", calleeShortName(x), c.callOrd[x]), x.Pos())
 	c.atArgs = nil
+	for _, nc := range c.con.NoCall {
+		if nc == calleeShortName(x) && c.dry == 0 {
+			c.curTags = c.con.NoCallTags
+			c.oblige(s, "no-call:"+nc, "this function does not call "+nc+" ("+c.con.NoCallWhy+")", x.Pos(), "false", c.con.NoCallTags)
+		}
+	}
 	for _, so := range c.con.SpawnOnly {
 		if so == calleeShortName(x) && c.dry == 0 {
 			c.curTags = c.con.SpawnOnlyTags
 			c.oblige(s, "spawn-only:"+so, "this function does not wait for "+so+" ("+c.con.SpawnOnlyWhy+"): it is started with `go`, never called", x.Pos(), "false", c.con.SpawnOnlyTags)
 		}
 	}
-	return c.callFunc(x, s, callee, recv, args)
+	res := c.callFunc(x, s, callee, recv, args)
+	// `at after f#n ...`: clauses evaluated right after the call returns; its results are res0, res1, ...
+	if after := fmt.Sprintf("after %s#%d", calleeShortName(x), c.callOrd[x]); len(c.con.Ats[after]) > 0 {
+		c.atArgs = map[string]bound{}
+		if sig, ok := callee.Type().(*types.Signature); ok {
+			switch rv := res.(type) {
+			case TupleV:
+				for i, v := range rv {
+					if i < sig.Results().Len() {
+						c.atArgs[fmt.Sprintf("res%d", i)] = bound{v, sig.Results().At(i).Type()}
+					}
+				}
+			case NoneV:
+			default:
+				if sig.Results().Len() == 1 {
+					c.atArgs["res0"] = bound{res, sig.Results().At(0).Type()}
+				}
+			}
+		}
+		c.atClauses(s, after, x.Pos())
+		c.atArgs = nil
+	}
+	return res
 }
 
 // methodRecv computes the receiver value for a method call through a selection (embedded fields, auto & / *).
